@@ -227,7 +227,14 @@ func oracleInline(p *Pair, env *Env, a [][]byte) *Failure {
 	files := filesFromTriples(a[7:])
 	lines, err := inlineLinesByHand(files, handLines(string(a[6])), 0)
 	if err != nil {
-		return nil // not a program this reading covers (missing file, flags in include): covered by C16
+		if err.Error() == "flags in include file" {
+			// C05: an include file that sets flags is rejected, never merged
+			if g := p.Impl(Op{"gen.run", a}, env.timeout); g.Status == "ok" {
+				return &Failure{What: "an include file with a flags line is accepted instead of rejected",
+					Detail: fmt.Sprintf("program %q\nfiles %q\n%s", a[6], a[7:], g.String())}
+			}
+		}
+		return nil // not a program this reading covers (missing file): covered by C16
 	}
 	lines, err = expandDefsByHand(lines)
 	if err != nil {
@@ -307,8 +314,10 @@ func oracleDefPermutations(p *Pair, env *Env, a [][]byte) *Failure {
 
 func parserProgram(r *rand.Rand, focus string) *Program {
 	o := progOpts{maxDepth: 2, maxItems: 5, includes: true, defs: true, cmdline: true, exotic: 0.1, malformed: 0, flagsPfxSf: true}
+	if focus == "include" {
+		o.includeFlags = 0.06
+	}
 	p := genProgram(r, o)
-	_ = focus
 	return p
 }
 
@@ -334,11 +343,79 @@ func addNestedDefs(r *rand.Rand, p *Program) {
 		at := r.Intn(len(lines) + 1)
 		lines = append(lines[:at:at], append([]string{indent(r) + d}, lines[at:]...)...)
 	}
+	if chance(r, 0.3) {
+		// the same name defined twice with different values: the definition written first wins
+		at := r.Intn(len(lines) + 1)
+		lines = append(lines[:at:at], append([]string{indent(r) + "##!> define " + names[r.Intn(k)] + " " + pick(r, []string{"DUP", "[0-9]+", "dup{2}"})}, lines[at:]...)...)
+	}
 	for u := 0; u < 3; u++ {
 		at := r.Intn(len(lines) + 1)
 		lines = append(lines[:at:at], append([]string{"use{{" + names[r.Intn(k)] + "}}" + pick(r, []string{"", "{{undefined}}", "{{" + names[r.Intn(k)] + "}}"})}, lines[at:]...)...)
 	}
 	p.Input = strings.Join(lines, "\n")
+}
+
+// genExceptScenario: include-except programs built around the corners of the set difference — duplicated entries
+// followed by new ones (positions in the line map), exclusion files that contribute nothing (empty, comments only,
+// definitions only) before ones that do, entries excluded by the last file only, exclusion files longer than the
+// include file, with and without a suffix replacement.
+func genExceptScenario(r *rand.Rand) *Program {
+	p := &Program{Kinds: map[string]int{}}
+	words := []string{"curl", "wget", "nc", "python", "perl", "ruby", "bash", "sh"}
+	r.Shuffle(len(words), func(i, j int) { words[i], words[j] = words[j], words[i] })
+	n := 3 + r.Intn(4)
+	inc := append([]string{}, words[:n]...)
+	// duplicates, at least one new entry after the second occurrence
+	if chance(r, 0.7) {
+		at := 1 + r.Intn(len(inc)-1)
+		inc = append(inc[:at:at], append([]string{inc[r.Intn(at)]}, inc[at:]...)...)
+	}
+	if chance(r, 0.3) {
+		inc = append(inc, inc[0], "zsh")
+	}
+	if chance(r, 0.3) {
+		inc = append(inc, "##! a comment", "")
+	}
+	p.addFile("i", "words.ra", strings.Join(inc, "\n")+"\n")
+	nothing := pick(r, []string{"", "\n", "##! nothing here\n\n", "##!> define unused x\n", "  \n##! c\n"})
+	ex1 := words[r.Intn(n)]
+	ex2 := words[r.Intn(n)]
+	var names []string
+	switch r.Intn(5) {
+	case 0:
+		p.addFile("e", "x1.ra", nothing)
+		p.addFile("e", "x2.ra", ex1+"\n"+ex2+"\n")
+		names = []string{"x1", "x2"}
+	case 1:
+		p.addFile("e", "x1.ra", ex1+"\n")
+		p.addFile("e", "x2.ra", nothing)
+		p.addFile("e", "x3.ra", ex2+"\nnotthere\n")
+		names = []string{"x1", "x2", "x3"}
+	case 2:
+		p.addFile("e", "x1.ra", ex1+"\n")
+		names = []string{"x1"}
+	case 3:
+		p.addFile("e", "x1.ra", nothing)
+		names = []string{"x1"}
+	default:
+		p.addFile("e", "x1.ra", strings.Join(words, "\n")+"\nextra1\nextra2\n")
+		p.addFile("i", "x2.ra", ex1+"\n")
+		names = []string{"x2", "x1"}
+	}
+	line := "##!> include-except words " + strings.Join(names, " ")
+	if chance(r, 0.3) {
+		line += " -- l L"
+	}
+	p.Input = pick(r, []string{"", "first\n", "##!> assemble\n"}) + line + "\n"
+	if strings.HasPrefix(p.Input, "##!> assemble") {
+		p.Input += "##!<\n"
+	}
+	p.Input += pick(r, []string{"", "last\n"})
+	for range [6]int{} {
+		p.Cfg = append(p.Cfg, []byte{})
+	}
+	p.Kinds["except-scenario"]++
+	return p
 }
 
 func genParserCases(focus string) func(r *rand.Rand, tier string, env *Env) []Case {
@@ -352,6 +429,9 @@ func genParserCases(focus string) func(r *rand.Rand, tier string, env *Env) []Ca
 			p := parserProgram(r, focus)
 			if focus == "defs" {
 				addNestedDefs(r, p)
+			}
+			if focus == "except" && i%4 == 1 {
+				p = genExceptScenario(r)
 			}
 			gargs := p.genOp().Args
 			c := Case{Kind: "program", Ops: []Op{p.parseOp(), p.genOp()}, Oracles: []Op{{"parser.inline", gargs}}}
